@@ -169,6 +169,82 @@ func checkC04(w *Worker) {
 		x.Case(text, true)
 		check(x, f, text, "names-x-layout")
 	})
+	// E: files longer than the scanner's 4096-byte buffer (and than 64 KiB in total): records delivered
+	// early must still be intact at the end (names are substrings of lines read long before)
+	w.Explore("long-files", ExploreOpts{ShardDepth: 2, Budgets: map[string]int{"layout": 1}}, func(x *Exec) {
+		nrec := []int{150, 700, 3000}[x.Choose(3, "input:records")]
+		nm := genNames[x.Choose(len(genNames), "input:name")]
+		var f absFile
+		for r := 0; r < nrec; r++ {
+			f = append(f, absRecord{Header: fmt.Sprintf("rec %d %s", r, nm), Items: []absItem{
+				{Name: fmt.Sprintf("%s %d", nm, r), NumText: fmt.Sprintf("%d.25", r)},
+				{IsNote: true, Name: "n", NoteText: fmt.Sprintf("note %d", r)},
+				{Name: fmt.Sprintf("second/%d", r), NumText: "-1"}}})
+		}
+		var sb strings.Builder
+		eol := "\n"
+		if x.Choose(2, "input:crlf") == 1 {
+			eol = "\r\n"
+		}
+		for _, r := range f {
+			sb.WriteString(r.Header + ":" + eol)
+			for _, it := range r.Items {
+				if it.IsNote {
+					sb.WriteString("  # " + it.Name + ": " + it.NoteText + eol)
+				} else {
+					sb.WriteString("  " + it.Name + ": " + it.NumText + eol)
+				}
+			}
+		}
+		text := sb.String()
+		x.Case(fmt.Sprint(nrec, nm, eol == "\n"), true)
+		recs, errs, ret, pan := parseAll(text)
+		got, want := recsString(recs), recsString(wantRecs(f))
+		x.Obs(fmt.Sprint(len(recs), errs, ret, pan, hash64([]byte(got))))
+		if pan != "" || ret != nil || len(errs) > 0 {
+			x.Violate("C04|long-files|well-formed-file-rejected", fmt.Sprintf("%d records, %d bytes: errors %v %v %s", nrec, len(text), errs, ret, pan), map[string]interface{}{"records": nrec, "name": nm})
+			return
+		}
+		if got != want {
+			first := 0
+			wr := wantRecs(f)
+			for first < len(recs) && first < len(wr) && recsString(recs[first:first+1]) == recsString(wr[first:first+1]) {
+				first++
+			}
+			detail := fmt.Sprintf("file of %d records (%d bytes): %d records parsed; first difference at record %d", nrec, len(text), len(recs), first)
+			if first < len(recs) && first < len(wr) {
+				detail += fmt.Sprintf(": parsed %s, expected %s", recsString(recs[first:first+1]), recsString(wr[first:first+1]))
+			}
+			x.Violate("C04|long-files|wrong-records", detail, map[string]interface{}{"records": nrec, "name": nm, "bytes": len(text)})
+			return
+		}
+		// the same through csv database (streams) and csv database-resolved (keeps every node until the end)
+		for _, cmd := range [][]string{{"csv", "database"}, {"csv", "database-resolved"}} {
+			c := appCase{Args: cmd, Files: map[string]string{"food.yaml": text}}
+			r := runApp(c)
+			if r.Failed || r.Panic != "" {
+				x.Violate("C04|long-files|app-failed", fmt.Sprintf("`hranoprovod-cli %s` on %d records: %s", strings.Join(cmd, " "), nrec, tailStr(r.String(), 400)), nil)
+				return
+			}
+			rows, err := parseCSV(r.Stdout)
+			if err != nil || len(rows) != 2*nrec {
+				x.Violate("C04|long-files|app-wrong-row-count", fmt.Sprintf("`%s`: %d rows for %d records x 2 entries (%v)", strings.Join(cmd, " "), len(rows), nrec, err), nil)
+				return
+			}
+			seen := map[string]bool{}
+			for _, row := range rows {
+				seen[row[0]+"\x00"+row[1]] = true
+			}
+			for _, r := range f {
+				for _, it := range r.Items {
+					if !it.IsNote && !seen[r.Header+"\x00"+it.Name] {
+						x.Violate("C04|long-files|app-row-missing", fmt.Sprintf("`%s` on %d records: no row for (%q, %q)", strings.Join(cmd, " "), nrec, r.Header, it.Name), nil)
+						return
+					}
+				}
+			}
+		}
+	})
 	// D: the same through the real commands (csv database for books, csv log and print for logs)
 	appDev := 1
 	w.Explore("app-slice", ExploreOpts{ShardDepth: 5, Budgets: map[string]int{"layout": appDev}}, func(x *Exec) {
